@@ -49,4 +49,5 @@ for p in fixes:
             e['what'] = re.sub(r'(property=\w+) \S+', lambda m: m.group(1) + ' ' + h, e['what'], count=1) if e['what'].startswith('fixed:') else e['what']
 (V/'fixes/applied.json').write_text(json.dumps(done, indent=1))
 (V/'known_findings.json').write_text(json.dumps(kf, indent=1))
+sh("/venv/bin/python tools/gen_fingerprints.py")
 sh("python3 tools/translate.py"); sh("git add -A"); sh(f"git commit -qm 'Apply {tag} fix patches to /repo; record commits' --allow-empty")
